@@ -252,6 +252,35 @@ def core_method_names():
     return out
 
 
+def _eval_tok_chain(fn, toks, env, depth=0):
+    """constant-evaluate a token sequence `name(.method(args))*` like eval_str does for the parsed form"""
+    if not toks or A.kind(toks[0]) != "Ident" or depth > 8:
+        return None
+    nm = toks[0]["sym"]
+    if nm in env:
+        v = env[nm]
+    else:
+        b = TY.resolve(fn, nm, toks[0]["span"][0])
+        v = eval_str(fn, b["init"], env, depth + 1) if b and b.get("init") is not None else None
+    i = 1
+    while v is not None and i < len(toks):
+        if not (A.kind(toks[i]) == "Punct" and A.punct_char(toks[i]) == "." and i + 2 < len(toks) + 0 and A.kind(toks[i + 1]) == "Ident" and A.kind(toks[i + 2]) == "Group"):
+            return None
+        m, args = toks[i + 1]["sym"], toks[i + 2]["stream"]
+        if m == "to_lowercase" and not args:
+            v = v.lower()
+        elif m in ("to_string", "to_owned", "into", "as_str", "clone") and not args:
+            pass
+        elif m == "trim_end_matches" and len(args) == 1 and A.kind(args[0]) == "Literal" and args[0]["lit"].get("value"):
+            a = args[0]["lit"]["value"]
+            while v.endswith(a):
+                v = v[: -len(a)]
+        else:
+            return None
+        i += 3
+    return v
+
+
 def eval_str(fn, e, env, depth=0):
     """constant-evaluate a string expression over `env` (names -> str): to_lowercase, trim_end_matches, to_string, +, format!"""
     e = A.peel(e)
@@ -307,10 +336,22 @@ def eval_str(fn, e, env, depth=0):
             parts.append(cur)
             pos = [p_ for p_ in parts if p_ and not (len(p_) >= 2 and A.kind(p_[1]) == "Punct" and A.punct_char(p_[1]) == "=")]
             if "{}" in pat:
-                if not all(len(p_) == 1 and A.kind(p_[0]) == "Ident" for p_ in pos) or pat.count("{}") != len(pos):
+                if pat.count("{}") != len(pos):
                     return None
-                it_ = iter(pos)
-                pat = re.sub(r"\{\}", lambda m_: "{" + next(it_)[0]["sym"] + "}", pat)
+                if not all(len(p_) == 1 and A.kind(p_[0]) == "Ident" for p_ in pos):
+                    # arguments that are method chains on a name (`trait_name.to_lowercase().trim_end_matches("assign")`)
+                    vals = [_eval_tok_chain(fn, p_, env, depth + 1) for p_ in pos]
+                    if any(v is None for v in vals):
+                        return None
+                    itv = iter(vals)
+                    pat = re.sub(r"\{\}", lambda m_: next(itv).replace("{", "{{").replace("}", "}}"), pat)
+                    if "{" in pat.replace("{{", "").replace("}}", ""):
+                        pass
+                    else:
+                        return pat.replace("{{", "{").replace("}}", "}")
+                else:
+                    it_ = iter(pos)
+                    pat = re.sub(r"\{\}", lambda m_: "{" + next(it_)[0]["sym"] + "}", pat)
 
             def sub(m):
                 nm = m.group(1)
